@@ -76,6 +76,8 @@ fn update_stages(
     stage: wgpu::ShaderStages,
 ) {
     // Search the function body to find function call statements
+    #[cfg(feature = "verif-hooks")]
+    crate::verif::point("walk:function");
     update_stages_blocks(module, &function.body, global_stages, stage);
 
     // Search the function body to find used globals.
